@@ -12,6 +12,7 @@ import GomlVerif.Model.GoPrint
 * `escape_go_string_decodes` — Go's interpreted-string-literal lexing of `escape_go_string s ++ "\""` yields `s`.
 * `print_expr_roundtrip` — the printed tokens of a paren-free expression of the operator subset parse back to the
   same tree by Go's precedence rules (`Parse`, a deterministic relation: `parse_deterministic`).
+* `glue_free_expr` — in that text no two tokens written without a space between them read as another token.
 -/
 namespace Goml.GoPrint
 open Goml.Go
@@ -1252,6 +1253,449 @@ theorem no_break_inserts_semicolon (e : GExpr) (hp : exprParenFree e = true) (p 
   have := h []
   simpa [breaksSafe] using this
 
+/-! ## `glue_free_expr`: tokens written without a space between them stay two tokens
+
+The lexical half of the round trip.  `Doc.pieces` keeps the spaces; `glueFree` scans it with Go's operator list and
+maximal munch in mind (`glued`): identifier / keyword / number runs, `5.` / `.5`, and two symbols forming a longer
+operator (`--`, `&&`, `<-`, `//`, …).  For the subset of `print_expr_roundtrip` it never fires. -/
+
+@[simp] theorem pieces_append (a b : Doc) : (a ++ b).pieces = a.pieces ++ b.pieces := by
+  show (Doc.append a b).pieces = _
+  cases a <;> cases b <;> simp [Doc.append, Doc.pieces]
+
+theorem pieces_tokD {t : Tok} (h : t.text.isEmpty = false) : (tokD t).pieces = [.tok t] := by
+  simp [tokD, h, Doc.pieces]
+
+@[simp] theorem pieces_sp : Doc.sp.pieces = [.sp] := rfl
+
+theorem pieces_sym_un (u : GUn) : (sym (unSym u)).pieces = [.tok (.sym (unSym u))] := by
+  cases u <;> rfl
+theorem pieces_sym_bin (b : GBin) : (sym (binSym b)).pieces = [.tok (.sym (binSym b))] := by
+  cases b <;> rfl
+
+def numFirst (text : String) : Tok :=
+  match text.toList with
+  | '-' :: _ => .sym "-"
+  | _ => .num text
+def numLast (text : String) : Tok :=
+  match text.toList with
+  | '-' :: rest => .num (String.ofList rest)
+  | _ => .num text
+
+def firstTok : GExpr → Tok
+  | .nil _ => .ident "nil"
+  | .var x _ => .ident x
+  | .bool b => .ident (if b then "true" else "false")
+  | .int text _ => numFirst text
+  | .float bits _ => numFirst (goFloatLiteral bits.toNat)
+  | .str v => .str ("\"" ++ escapeGoString v ++ "\"")
+  | .call _ f _ => firstTok f
+  | .un op _ _ => .sym (unSym op)
+  | .bin _ _ l _ => firstTok l
+  | .field _ _ o => firstTok o
+  | .index _ a _ => firstTok a
+  | _ => .sym "?"
+
+def lastTok : GExpr → Tok
+  | .nil _ => .ident "nil"
+  | .var x _ => .ident x
+  | .bool b => .ident (if b then "true" else "false")
+  | .int text _ => numLast text
+  | .float bits _ => numLast (goFloatLiteral bits.toNat)
+  | .str v => .str ("\"" ++ escapeGoString v ++ "\"")
+  | .call _ _ _ => .sym ")"
+  | .un _ _ e => lastTok e
+  | .bin _ _ _ r => lastTok r
+  | .field f _ _ => .ident f
+  | .index _ _ _ => .sym "]"
+  | _ => .sym "?"
+
+/-- what can start an expression of the subset -/
+inductive FK : Tok → Prop where
+  | ident (x) : FK (.ident x)
+  | num (n) : FK (.num n)
+  | str (s) : FK (.str s)
+  | un (u : GUn) : FK (.sym (unSym u))
+
+/-- what can end one -/
+inductive LK : Tok → Prop where
+  | ident (x) : LK (.ident x)
+  | num (n) : LK (.num n)
+  | str (s) : LK (.str s)
+  | rparen : LK (.sym ")")
+  | rbrack : LK (.sym "]")
+
+theorem numFirst_fk (text : String) : FK (numFirst text) := by
+  unfold numFirst; split
+  · exact FK.un .neg
+  · exact FK.num _
+theorem numLast_lk (text : String) : LK (numLast text) := by
+  unfold numLast; split <;> exact LK.num _
+
+theorem firstTok_fk : ∀ e : GExpr, inSubset e = true → FK (firstTok e)
+  | .nil _, _ => FK.ident _
+  | .var _ _, _ => FK.ident _
+  | .bool _, _ => FK.ident _
+  | .int _ _, _ => numFirst_fk _
+  | .float _ _, _ => numFirst_fk _
+  | .str _, _ => FK.str _
+  | .call _ f _, h => by simp only [inSubset, Bool.and_eq_true] at h; exact firstTok_fk f h.1
+  | .un op _ _, _ => FK.un op
+  | .bin _ _ l _, h => by simp only [inSubset, Bool.and_eq_true] at h; exact firstTok_fk l h.1
+  | .field _ _ o, h => by simp only [inSubset, Bool.and_eq_true] at h; exact firstTok_fk o h.2
+  | .index _ a _, h => by simp only [inSubset, Bool.and_eq_true] at h; exact firstTok_fk a h.1
+  | .voidv _, h | .unitv _, h | .cast _ _, h | .slit _ _, h | .alit _ _, h | .blocke _ _ _, h => by simp [inSubset] at h
+
+theorem lastTok_lk : ∀ e : GExpr, inSubset e = true → LK (lastTok e)
+  | .nil _, _ => LK.ident _
+  | .var _ _, _ => LK.ident _
+  | .bool _, _ => LK.ident _
+  | .int _ _, _ => numLast_lk _
+  | .float _ _, _ => numLast_lk _
+  | .str _, _ => LK.str _
+  | .call _ _ _, _ => LK.rparen
+  | .un _ _ e, h => by simp only [inSubset] at h; exact lastTok_lk e h
+  | .bin _ _ _ r, h => by simp only [inSubset, Bool.and_eq_true] at h; exact lastTok_lk r h.2
+  | .field _ _ _, _ => LK.ident _
+  | .index _ _ _, _ => LK.rbrack
+  | .voidv _, h | .unitv _, h | .cast _ _, h | .slit _ _, h | .alit _ _, h | .blocke _ _ _, h => by simp [inSubset] at h
+
+/-! ### which adjacent pairs read as two tokens -/
+
+theorem glued_sym_ident (s x : String) : glued (.sym s) (.ident x) = false := by simp [glued, isWordy]
+theorem glued_sym_str (s x : String) : glued (.sym s) (.str x) = false := by simp [glued, isWordy]
+theorem glued_ident_sym (x s : String) : glued (.ident x) (.sym s) = false := by simp [glued, isWordy]
+theorem glued_str_sym (x s : String) : glued (.str x) (.sym s) = false := by simp [glued, isWordy]
+theorem glued_num_sym (n s : String) : glued (.num n) (.sym s) = (s == ".") := rfl
+theorem glued_sym_num (s n : String) : glued (.sym s) (.num n) = (s == ".") := rfl
+
+theorem glued_un_un (u w : GUn) (h : unSym w ≠ unSym u) : glued (.sym (unSym u)) (.sym (unSym w)) = false := by
+  cases u <;> cases w <;> first | (exact absurd rfl h) | decide
+
+theorem glued_un_first (u : GUn) {t : Tok} (ht : FK t) (hne : ∀ w, t = .sym (unSym w) → unSym w ≠ unSym u) :
+    glued (.sym (unSym u)) t = false := by
+  cases ht with
+  | ident x => exact glued_sym_ident _ _
+  | num n => rw [glued_sym_num]; cases u <;> decide
+  | str x => exact glued_sym_str _ _
+  | un w => exact glued_un_un u w (hne w rfl)
+
+theorem glued_open_first {o : String} (ho : o = "(" ∨ o = "[") {t : Tok} (ht : FK t) : glued (.sym o) t = false := by
+  cases ht with
+  | ident x => exact glued_sym_ident _ _
+  | num n => rw [glued_sym_num]; rcases ho with rfl | rfl <;> decide
+  | str x => exact glued_sym_str _ _
+  | un w => rcases ho with rfl | rfl <;> cases w <;> decide
+
+/-- after the end of an operand: `(`, `[`, `,`, `)`, `]` never glue; `.` glues only to a number -/
+theorem glued_last_follow {t : Tok} (ht : LK t) {y : String} (hy : y = "(" ∨ y = "[" ∨ y = "," ∨ y = ")" ∨ y = "]") :
+    glued t (.sym y) = false := by
+  cases ht with
+  | ident x => exact glued_ident_sym _ _
+  | num n => rw [glued_num_sym]; rcases hy with rfl | rfl | rfl | rfl | rfl <;> decide
+  | str x => exact glued_str_sym _ _
+  | rparen => rcases hy with rfl | rfl | rfl | rfl | rfl <;> decide
+  | rbrack => rcases hy with rfl | rfl | rfl | rfl | rfl <;> decide
+
+theorem glued_last_dot {t : Tok} (ht : LK t) (hn : ∀ n, t ≠ .num n) : glued t (.sym ".") = false := by
+  cases ht with
+  | ident x => exact glued_ident_sym _ _
+  | num n => exact absurd rfl (hn n)
+  | str x => exact glued_str_sym _ _
+  | rparen => decide
+  | rbrack => decide
+
+theorem numFirst_notsym {text : String} (h : isNegText text = false) : ∀ s, numFirst text ≠ .sym s := by
+  intro s
+  unfold numFirst
+  unfold isNegText at h
+  split
+  · rename_i heq; rw [heq] at h; simp at h
+  · intro h'; cases h'
+
+/-- an operand at level 7 starts with an identifier or a literal, never with an operator -/
+theorem firstTok_level7 : ∀ e : GExpr, level e = 7 → inSubset e = true → exprParenFree e = true → ∀ s, firstTok e ≠ .sym s
+  | .nil _, _, _, _ => by intro s h; cases h
+  | .var _ _, _, _, _ => by intro s h; cases h
+  | .bool _, _, _, _ => by intro s h; cases h
+  | .str _, _, _, _ => by intro s h; cases h
+  | .int text _, hl, _, _ => by
+      simp only [level] at hl
+      exact numFirst_notsym (by cases h : isNegText text <;> simp_all)
+  | .float bits _, hl, _, _ => by
+      simp only [level] at hl
+      exact numFirst_notsym (by cases h : isNegText (goFloatLiteral bits.toNat) <;> simp_all)
+  | .call _ f _, _, hs, hp => by
+      simp only [inSubset, Bool.and_eq_true] at hs
+      simp only [exprParenFree, Bool.and_eq_true, decide_eq_true_eq] at hp
+      exact firstTok_level7 f (by have := level_le f; omega) hs.1 hp.1.2
+  | .field _ _ o, _, hs, hp => by
+      simp only [inSubset, Bool.and_eq_true] at hs
+      simp only [exprParenFree, Bool.and_eq_true, decide_eq_true_eq] at hp
+      exact firstTok_level7 o (by have := level_le o; omega) hs.2 hp.2
+  | .index _ a _, _, hs, hp => by
+      simp only [inSubset, Bool.and_eq_true] at hs
+      simp only [exprParenFree, Bool.and_eq_true, decide_eq_true_eq] at hp
+      exact firstTok_level7 a (by have := level_le a; omega) hs.1 hp.1.2
+  | .un _ _ _, hl, _, _ => by simp [level] at hl
+  | .bin op _ _ _, hl, _, _ => by simp only [level] at hl; have := binPrec_le op; omega
+  | .voidv _, _, h, _ | .unitv _, _, h, _ | .cast _ _, _, h, _ | .slit _ _, _, h, _ | .alit _ _, _, h, _
+  | .blocke _ _ _, _, h, _ => by simp [inSubset] at h
+
+theorem startsWithSym_numFirst {text s : String} (h : numFirst text = .sym s) : s = "-" ∧ isNegText text = true := by
+  unfold numFirst at h
+  unfold isNegText
+  split at h
+  · rename_i heq; rw [heq]; cases h; exact ⟨rfl, rfl⟩
+  · cases h
+
+/-- a unary operand (level ≥ 6) that starts with an operator token starts with the operator `startsWithSym` names -/
+theorem firstTok_startsWith : ∀ e : GExpr, 6 ≤ level e → inSubset e = true → exprParenFree e = true →
+    ∀ s, firstTok e = .sym s → startsWithSym s e = true
+  | .un op _ _, _, _, _ => by intro s h; simp only [firstTok] at h; cases h; simp [startsWithSym]
+  | .int text _, _, _, _ => by
+      intro s h; simp only [firstTok] at h
+      obtain ⟨rfl, hn⟩ := startsWithSym_numFirst h
+      simp [startsWithSym, hn]
+  | .float bits _, _, _, _ => by
+      intro s h; simp only [firstTok] at h
+      obtain ⟨rfl, hn⟩ := startsWithSym_numFirst h
+      simp [startsWithSym, hn]
+  | .bin op _ _ _, hl, _, _ => by simp only [level] at hl; have := binPrec_le op; omega
+  | .nil t, _, hs, hp => fun s h => absurd h (firstTok_level7 (.nil t) rfl hs hp s)
+  | .var x t, _, hs, hp => fun s h => absurd h (firstTok_level7 (.var x t) rfl hs hp s)
+  | .bool b, _, hs, hp => fun s h => absurd h (firstTok_level7 (.bool b) rfl hs hp s)
+  | .str v, _, hs, hp => fun s h => absurd h (firstTok_level7 (.str v) rfl hs hp s)
+  | .call t f a, _, hs, hp => fun s h => absurd h (firstTok_level7 (.call t f a) rfl hs hp s)
+  | .field f t o, _, hs, hp => fun s h => absurd h (firstTok_level7 (.field f t o) rfl hs hp s)
+  | .index t a i, _, hs, hp => fun s h => absurd h (firstTok_level7 (.index t a i) rfl hs hp s)
+  | .voidv _, _, h, _ | .unitv _, _, h, _ | .cast _ _, _, h, _ | .slit _ _, _, h, _ | .alit _ _, _, h, _
+  | .blocke _ _ _, _, h, _ => by simp [inSubset] at h
+
+/-- the base of a selector (level 7, not a numeric literal) does not end in a number -/
+theorem lastTok_notnum : ∀ e : GExpr, level e = 7 → isNumLit e = false → inSubset e = true → ∀ n, lastTok e ≠ .num n
+  | .nil _, _, _, _ => by intro n h; cases h
+  | .var _ _, _, _, _ => by intro n h; cases h
+  | .bool _, _, _, _ => by intro n h; cases h
+  | .str _, _, _, _ => by intro n h; cases h
+  | .call _ _ _, _, _, _ => by intro n h; cases h
+  | .field _ _ _, _, _, _ => by intro n h; cases h
+  | .index _ _ _, _, _, _ => by intro n h; cases h
+  | .int _ _, _, hn, _ | .float _ _, _, hn, _ => by simp [isNumLit] at hn
+  | .un _ _ _, hl, _, _ => by simp [level] at hl
+  | .bin op _ _ _, hl, _, _ => by simp only [level] at hl; have := binPrec_le op; omega
+  | .voidv _, _, _, h | .unitv _, _, _, h | .cast _ _, _, _, h | .slit _ _, _, _, h | .alit _ _, _, _, h
+  | .blocke _ _ _, _, _, h => by simp [inSubset] at h
+
+/-! ### threading the adjacency scan through an expression -/
+
+def OKP (prev : Option Tok) (t : Tok) : Prop := ∀ p, prev = some p → glued p t = false
+
+theorem okp_none (t : Tok) : OKP none t := by intro p h; cases h
+theorem okp_some {p t : Tok} (h : glued p t = false) : OKP (some p) t := by intro q hq; cases hq; exact h
+
+theorem gff_tok {prev : Option Tok} {t : Tok} (h : OKP prev t) (r : List Piece) :
+    glueFreeFrom prev (.tok t :: r) = glueFreeFrom (some t) r := by
+  cases prev with
+  | none => simp [glueFreeFrom]
+  | some p => simp [glueFreeFrom, h p rfl]
+
+theorem gff_sp (prev : Option Tok) (r : List Piece) : glueFreeFrom prev (.sp :: r) = glueFreeFrom none r := by
+  cases prev <;> rfl
+
+/-- the statement proved by induction -/
+def G (e : GExpr) : Prop :=
+  ∀ prev rest, OKP prev (firstTok e) →
+    glueFreeFrom prev ((exprDoc e).pieces ++ rest) = glueFreeFrom (some (lastTok e)) rest
+
+theorem g_atom (e : GExpr) (t : Tok) (hp : (exprDoc e).pieces = [.tok t]) (hf : firstTok e = t) (hl : lastTok e = t) : G e := by
+  intro prev rest h
+  rw [hp, hl]; rw [hf] at h
+  exact gff_tok h rest
+
+theorem g_numlit (e : GExpr) (text : String) (hOK : numOK text = true) (hdoc : exprDoc e = numDoc text)
+    (hf : firstTok e = numFirst text) (hl : lastTok e = numLast text) : G e := by
+  cases htl : text.toList with
+  | nil =>
+    have hne : text.isEmpty = false := by simpa [numOK, htl] using hOK
+    refine g_atom e (.num text) ?_ ?_ ?_
+    · rw [hdoc]; unfold numDoc; rw [htl]; exact pieces_tokD hne
+    · rw [hf]; unfold numFirst; rw [htl]
+    · rw [hl]; unfold numLast; rw [htl]
+  | cons c cs =>
+    by_cases hc : c = '-'
+    · subst hc
+      have hne : (String.ofList cs).isEmpty = false := by simpa [numOK, htl] using hOK
+      intro prev rest h
+      have hp : (exprDoc e).pieces = [.tok (.sym "-"), .tok (.num (String.ofList cs))] := by
+        rw [hdoc]; unfold numDoc; rw [htl]
+        simp only [pieces_append]
+        rw [pieces_tokD (t := .num (String.ofList cs)) hne]
+        rfl
+      have hf' : firstTok e = .sym "-" := by rw [hf]; simp [numFirst, htl]
+      have hl' : lastTok e = .num (String.ofList cs) := by rw [hl]; simp [numLast, htl]
+      rw [hp, hl']; rw [hf'] at h
+      show glueFreeFrom prev (.tok (.sym "-") :: .tok (.num (String.ofList cs)) :: rest) = _
+      rw [gff_tok h, gff_tok (okp_some (by rw [glued_sym_num]; decide))]
+    · have hne : text.isEmpty = false := by
+        unfold numOK at hOK; rw [htl] at hOK; split at hOK
+        · rename_i heq; injection heq with h1 _; exact absurd h1 hc
+        · simpa using hOK
+      refine g_atom e (.num text) ?_ ?_ ?_
+      · rw [hdoc]; unfold numDoc; rw [htl]; split
+        · rename_i heq; injection heq with h1 _; exact absurd h1 hc
+        · exact pieces_tokD hne
+      · rw [hf]; unfold numFirst; rw [htl]; split
+        · rename_i heq; injection heq with h1 _; exact absurd h1 hc
+        · rfl
+      · rw [hl]; unfold numLast; rw [htl]; split
+        · rename_i heq; injection heq with h1 _; exact absurd h1 hc
+        · rfl
+
+theorem pieces_foldl (sep : Doc) : ∀ (ds : List Doc) (acc : Doc),
+    (ds.foldl (fun acc x => acc ++ sep ++ x) acc).pieces = acc.pieces ++ ds.flatMap (fun x => sep.pieces ++ x.pieces) := by
+  intro ds
+  induction ds with
+  | nil => intro acc; simp
+  | cons d ds ih => intro acc; simp [List.foldl, ih, List.flatMap_cons]
+
+theorem pieces_intersperse_cons (sep d : Doc) (ds : List Doc) :
+    (intersperse sep (d :: ds)).pieces = d.pieces ++ ds.flatMap (fun x => sep.pieces ++ x.pieces) := by
+  simp [intersperse, pieces_foldl]
+
+def commaPieces : List Piece := (sym "," ++ Doc.sp).pieces
+theorem commaPieces_eq : commaPieces = [.tok (.sym ","), .sp] := rfl
+
+mutual
+theorem g : ∀ e : GExpr, inSubset e = true → exprParenFree e = true → G e
+  | .nil t, _, _ => g_atom _ (.ident "nil") (by rw [exprDoc]; rfl) rfl rfl
+  | .bool b, _, _ => by
+      cases b
+      · exact g_atom _ (.ident "false") (by rw [exprDoc]; rfl) rfl rfl
+      · exact g_atom _ (.ident "true") (by rw [exprDoc]; rfl) rfl rfl
+  | .var x t, hs, _ => by
+      have hx : x.isEmpty = false := by simpa [inSubset] using hs
+      exact g_atom _ (.ident x) (by rw [exprDoc]; exact pieces_tokD hx) rfl rfl
+  | .str v, _, _ => by
+      have hne : ("\"" ++ escapeGoString v ++ "\"").isEmpty = false := by simp [String.isEmpty]
+      exact g_atom _ (.str ("\"" ++ escapeGoString v ++ "\"")) (by rw [exprDoc]; exact pieces_tokD hne) rfl rfl
+  | .int text t, hs, _ => g_numlit _ text (by simpa [inSubset] using hs) (by rw [exprDoc]) rfl rfl
+  | .float bits t, hs, _ => g_numlit _ (goFloatLiteral bits.toNat) (by simpa [inSubset] using hs) (by rw [exprDoc]) rfl rfl
+  | .un op t e, hs, hp => by
+      simp only [inSubset] at hs
+      simp only [exprParenFree, Bool.and_eq_true, decide_eq_true_eq, Bool.not_eq_true'] at hp
+      obtain ⟨⟨h6, hsw⟩, hpe⟩ := hp
+      intro prev rest h
+      rw [exprDoc]
+      simp only [pieces_append, pieces_sym_un, List.cons_append, List.nil_append]
+      simp only [firstTok] at h
+      rw [gff_tok h]
+      have hglue : glued (.sym (unSym op)) (firstTok e) = false := by
+        apply glued_un_first op (firstTok_fk e hs)
+        intro w hw hEq
+        have := firstTok_startsWith e h6 hs hpe _ hw
+        rw [hEq] at this
+        rw [this] at hsw; cases hsw
+      exact g e hs hpe (some (.sym (unSym op))) rest (okp_some hglue)
+  | .bin op t l r, hs, hp => by
+      simp only [inSubset, Bool.and_eq_true] at hs
+      simp only [exprParenFree, Bool.and_eq_true, decide_eq_true_eq] at hp
+      intro prev rest h
+      rw [exprDoc]
+      simp only [pieces_append, pieces_sym_bin, pieces_sp, List.append_assoc, List.cons_append, List.nil_append]
+      simp only [firstTok] at h
+      rw [g l hs.1 hp.1.2 prev _ h, gff_sp, gff_tok (okp_none _), gff_sp]
+      exact g r hs.2 hp.2 none rest (okp_none _)
+  | .call t f args, hs, hp => by
+      simp only [inSubset, Bool.and_eq_true] at hs
+      simp only [exprParenFree, Bool.and_eq_true, decide_eq_true_eq] at hp
+      intro prev rest h
+      rw [exprDoc]
+      simp only [pieces_append, List.append_assoc]
+      rw [show (sym "(").pieces = [.tok (.sym "(")] from rfl, show (sym ")").pieces = [.tok (.sym ")")] from rfl]
+      simp only [List.cons_append, List.nil_append]
+      simp only [firstTok] at h
+      rw [g f hs.1 hp.1.2 prev _ h]
+      rw [gff_tok (okp_some (glued_last_follow (lastTok_lk f hs.1) (Or.inl rfl)))]
+      exact gArgs args hs.2 hp.2 rest
+  | .field fl t o, hs, hp => by
+      simp only [inSubset, Bool.and_eq_true, Bool.not_eq_true'] at hs
+      simp only [exprParenFree, Bool.and_eq_true, decide_eq_true_eq, Bool.not_eq_true'] at hp
+      obtain ⟨⟨h7, hnum⟩, hpo⟩ := hp
+      intro prev rest h
+      rw [exprDoc]
+      simp only [pieces_append, List.append_assoc]
+      rw [show (sym ".").pieces = [.tok (.sym ".")] from rfl, show (ident fl).pieces = [.tok (.ident fl)] from pieces_tokD hs.1]
+      simp only [List.cons_append, List.nil_append]
+      simp only [firstTok] at h
+      have ho7 : level o = 7 := by have := level_le o; omega
+      rw [g o hs.2 hpo prev _ h]
+      rw [gff_tok (okp_some (glued_last_dot (lastTok_lk o hs.2) (lastTok_notnum o ho7 hnum hs.2)))]
+      rw [gff_tok (okp_some (glued_sym_ident _ _))]
+      rfl
+  | .index t a i, hs, hp => by
+      simp only [inSubset, Bool.and_eq_true] at hs
+      simp only [exprParenFree, Bool.and_eq_true, decide_eq_true_eq] at hp
+      intro prev rest h
+      rw [exprDoc]
+      simp only [pieces_append, List.append_assoc]
+      rw [show (sym "[").pieces = [.tok (.sym "[")] from rfl, show (sym "]").pieces = [.tok (.sym "]")] from rfl]
+      simp only [List.cons_append, List.nil_append]
+      simp only [firstTok] at h
+      rw [g a hs.1 hp.1.2 prev _ h]
+      rw [gff_tok (okp_some (glued_last_follow (lastTok_lk a hs.1) (Or.inr (Or.inl rfl))))]
+      rw [g i hs.2 hp.2 (some (.sym "[")) _ (okp_some (glued_open_first (Or.inr rfl) (firstTok_fk i hs.2)))]
+      rw [gff_tok (okp_some (glued_last_follow (lastTok_lk i hs.2) (Or.inr (Or.inr (Or.inr (Or.inr rfl))))))]
+      rfl
+  | .voidv _, h, _ | .unitv _, h, _ | .cast _ _, h, _ | .slit _ _, h, _ | .alit _ _, h, _ | .blocke _ _ _, h, _ => by
+      simp [inSubset] at h
+theorem gArgs : ∀ es : List GExpr, inSubsetList es = true → exprsParenFree es = true → ∀ rest : List Piece,
+    glueFreeFrom (some (.sym "(")) ((intersperse (sym "," ++ Doc.sp) (exprDocs es)).pieces ++ .tok (.sym ")") :: rest) =
+      glueFreeFrom (some (.sym ")")) rest
+  | [], _, _ => by
+      intro rest
+      rw [exprDocs]
+      show glueFreeFrom (some (.sym "(")) (.tok (.sym ")") :: rest) = _
+      exact gff_tok (okp_some (by decide)) rest
+  | e :: es, hs, hp => by
+      intro rest
+      simp only [inSubsetList, Bool.and_eq_true] at hs
+      simp only [exprsParenFree, Bool.and_eq_true] at hp
+      rw [exprDocs, pieces_intersperse_cons, List.append_assoc]
+      rw [g e hs.1 hp.1 _ _ (okp_some (glued_open_first (Or.inl rfl) (firstTok_fk e hs.1)))]
+      exact gMore es hs.2 hp.2 _ (lastTok_lk e hs.1) rest
+theorem gMore : ∀ es : List GExpr, inSubsetList es = true → exprsParenFree es = true → ∀ t : Tok, LK t → ∀ rest : List Piece,
+    glueFreeFrom (some t) ((exprDocs es).flatMap (fun x => (sym "," ++ Doc.sp).pieces ++ x.pieces) ++ .tok (.sym ")") :: rest) =
+      glueFreeFrom (some (.sym ")")) rest
+  | [], _, _ => by
+      intro t ht rest
+      rw [exprDocs]
+      show glueFreeFrom (some t) (.tok (.sym ")") :: rest) = _
+      exact gff_tok (okp_some (glued_last_follow ht (Or.inr (Or.inr (Or.inr (Or.inl rfl)))))) rest
+  | e :: es, hs, hp => by
+      intro t ht rest
+      simp only [inSubsetList, Bool.and_eq_true] at hs
+      simp only [exprsParenFree, Bool.and_eq_true] at hp
+      rw [exprDocs, List.flatMap_cons]
+      rw [show (sym "," ++ Doc.sp).pieces = [.tok (.sym ","), .sp] from rfl]
+      simp only [List.cons_append, List.nil_append, List.append_assoc]
+      rw [gff_tok (okp_some (glued_last_follow ht (Or.inr (Or.inr (Or.inl rfl))))), gff_sp]
+      rw [g e hs.1 hp.1 none _ (okp_none _)]
+      have := gMore es hs.2 hp.2 _ (lastTok_lk e hs.1) rest
+      rw [show (sym "," ++ Doc.sp).pieces = [.tok (.sym ","), .sp] from rfl] at this
+      exact this
+end
+
+/-- **Adjacent tokens stay apart**: in the text of a paren-free expression of the subset no two token texts the
+    printer writes without a space between them read as one (or another) Go token — `--`, `&&`, `5.`, identifier
+    runs — so lexing the text gives back exactly the tokens `Doc.items` lists (for the token classes as the
+    printer spells them; the inside of an identifier / literal is not modelled). -/
+theorem glue_free_expr (e : GExpr) (hs : inSubset e = true) (hp : exprParenFree e = true) :
+    glueFree (exprDoc e).pieces = true := by
+  have := g e hs hp none [] (okp_none _)
+  simpa [glueFree, glueFreeFrom] using this
+
+
 /-! ## non-vacuity -/
 
 section Examples
@@ -1285,7 +1729,7 @@ example : Parse (.bin 1) (exprDoc bad).items (.e (erase good)) [] := by
 /-- `- -x` would print `--x` (Go's decrement token): rejected by `exprParenFree` and seen by `glueFree` -/
 example : exprParenFree (.un .neg i32 (.un .neg i32 (v "x"))) = false := by decide
 example : glueFree (exprDoc (.un .neg i32 (.un .neg i32 (v "x")))).pieces = false := by decide
-example : glueFree (exprDoc ex1).pieces = true := by decide
+example : glueFree (exprDoc ex1).pieces = true := glue_free_expr ex1 (by decide) (by decide)
 
 /-- a left-leaning chain `x + x + … + x` of `n + 1` operands -/
 private def chain : Nat → GExpr
